@@ -22,7 +22,7 @@ import os, time
 # Every scenario gets its own block of ports, taken from one running counter: a service started by `wire start` stays
 # bound for the life of the harness process, so no later scenario may come near its ports. The whole stage stays inside
 # 26000..32700, below the kernel's ephemeral range; the stage's region depends on the process and the time.
-SIZES = {"quick": {"c07": 6 * 12 + 2 * 12 + 2 * 14, "c08": 2 * 8, "c15": 16}, "thorough": {"c07": 60 * 12 + 20 * 12 + 20 * 14, "c08": 30 * 8, "c15": 2 * 16}}
+SIZES = {"quick": {"c07": 6 * 12 + 2 * 12 + 2 * 14, "c08": 2 * 8, "c15": 32}, "thorough": {"c07": 60 * 12 + 20 * 12 + 20 * 14, "c08": 30 * 8, "c15": 4 * 16}}
 _next = [26000, 32700]
 
 def region(tier, focus):
@@ -222,6 +222,44 @@ def gen_c15(g, lines, k):
     g.count("wire_c15_two_services")
     lines.append("wire end")
 
+def gen_c15_env(g, lines, k):
+    """the service says dialogTimeout: 1 and the environment says DEFAULT_DIALOG_TIMEOUT=600: the service's own setting is
+    the configured dialog timeout (the environment only fills in for a service that has none). A dialog bound on this
+    service has lapsed 1.6 s later: two requests bearing its identifiers are load-balanced, one to each backend."""
+    base = take(16)
+    lip = "127.0.0.1"
+    P1, B1, B2, UP = base, base + 2, base + 3, base + 5
+    b1, b2, ua = "127.0.1.1:%d" % B1, "127.0.1.2:%d" % B2, "127.0.2.1:%d" % UP
+    y = ("proxies:\n- name: one.test\n  dialogTimeout: 1\n  listens:\n  - address: %s\n    udp-port: %d\n    backends:\n    - udp://%s\n    - udp://%s\n") % (lip, P1, b1, b2)
+    lines.append("wire setenv %s %s" % (hx("DEFAULT_DIALOG_TIMEOUT"), hx("600")))
+    lines.append("wire startall %s" % hx(y))
+    lines.append("wire setenv %s -" % hx("DEFAULT_DIALOG_TIMEOUT"))
+    for x in (b1, b2, ua):
+        lines.append("wire bind %s" % hx(x))
+    call = g.word(ALNUM, 8, 12)
+    v = Via("UDP", "127.0.2.1", UP, [("branch", "z9hG4bK" + g.word(ALNUM.upper(), 6, 9))])
+    inv = msg("INVITE sip:one.test SIP/2.0", [("Via", v.text()), ("From", "<sip:a@ua.test>;tag=f1"), ("To", "<sip:b@one.test>"), ("Call-ID", call), ("CSeq", "1 INVITE")])
+    lines.append("wire udp %s %s %s" % (hx(ua), hx("%s:%d" % (lip, P1)), hx(inv)))
+    lines.append("wire recv %s 1500 msg=%s # spec=C15 dest U %s" % (hx(b2), hx(inv), hx(b2)))       # the rotation's first dispatch
+    own = "SIP/2.0/UDP %s:%d;branch=%s" % (lip, P1, BR)
+    ok = msg("SIP/2.0 200 OK", [("Via", own), ("Via", v.stamped("127.0.2.1", UP).text()), ("From", "<sip:a@ua.test>;tag=f1"), ("To", "<sip:b@one.test>;tag=t1"), ("Call-ID", call), ("CSeq", "1 INVITE")])
+    lines.append("wire udp %s %s %s" % (hx(b2), hx("%s:%d" % (lip, P1)), hx(ok)))
+    lines.append("wire recv %s 1500 msg=%s # spec=C15 dest U %s" % (hx(ua), hx(ok), hx(ua)))
+    # inside the lifetime: bound
+    vi = Via("UDP", "127.0.2.1", UP, [("branch", "z9hG4bK" + g.word(ALNUM.upper(), 6, 9))])
+    info = msg("INFO sip:one.test SIP/2.0", [("Via", vi.text()), ("From", "<sip:a@ua.test>;tag=f1"), ("To", "<sip:b@one.test>;tag=t1"), ("Call-ID", call), ("CSeq", "2 INFO")])
+    lines.append("wire udp %s %s %s" % (hx(ua), hx("%s:%d" % (lip, P1)), hx(info)))
+    lines.append("wire recv %s 1500 msg=%s # spec=C15 dest U %s" % (hx(b2), hx(info), hx(b2)))
+    lines.append("wire sleep 1600")
+    # after it: load-balanced like new ones, the rotation goes on where it stood (b1, then b2)
+    for i, tgt in enumerate((b1, b2)):
+        vi = Via("UDP", "127.0.2.1", UP, [("branch", "z9hG4bK" + g.word(ALNUM.upper(), 6, 9))])
+        info = msg("INFO sip:one.test SIP/2.0", [("Via", vi.text()), ("From", "<sip:a@ua.test>;tag=f1"), ("To", "<sip:b@one.test>;tag=t1"), ("Call-ID", call), ("CSeq", "%d INFO" % (3 + i))])
+        lines.append("wire udp %s %s %s" % (hx(ua), hx("%s:%d" % (lip, P1)), hx(info)))
+        lines.append("wire recv %s 1500 msg=%s # spec=C15 dest U %s" % (hx(tgt), hx(info), hx(tgt)))
+    g.count("wire_c15_service_setting_beats_environment")
+    lines.append("wire end")
+
 def generate(seed, tier, focus="c07"):
     g = Gen(seed)
     lines = []
@@ -231,6 +269,7 @@ def generate(seed, tier, focus="c07"):
         if focus == "c15":
             if k < (1 if tier == "quick" else 2):
                 gen_c15(g, lines, k)
+                gen_c15_env(g, lines, k)
             continue
         if focus == "c08":
             if k < (2 if tier == "quick" else 30):
